@@ -136,3 +136,21 @@ class RefArgRenamer(IdentityMapper):
         return Variable(f"{expr.name}_{suffix!r}")
 
 # }}}
+
+
+# {{{ a base class whose methods read a module global (the subclass in optmappers2.py reads ITS
+# module's global of the same name, which is equal but not the same object)
+
+UNIT = 1
+LOG: list = []
+
+
+class OptUnitBase(CachedIdentityMapper):
+    def map_constant(self, expr):
+        LOG.append(("base", expr))
+        return expr * UNIT
+
+    def get_cache_key(self, expr):
+        return (type(expr), expr)
+
+# }}}
